@@ -366,9 +366,81 @@ fn gen_cond_tree(r: &mut Rng, depth: usize, counter: &mut usize) -> Vec<Node> {
     out
 }
 
+/// A condition is evaluated afresh every time: one compiled template rendered against many
+/// data objects, and one condition re-evaluated inside a loop over many values, give each time
+/// what a freshly parsed template gives for that value alone.
+fn reused_conditions(ctx: &mut Ctx) {
+    let pool = pool();
+    let p = parser(Config::Stdlib);
+    let branch = |o: &Out| match o {
+        Out::Ok(s) if s == "T" => Some("T"),
+        Out::Ok(s) if s == "F" => Some("F"),
+        _ => None,
+    };
+    for op in Op::ALL {
+        for (i, a) in pool.iter().enumerate() {
+            if !has_literal(a) {
+                continue;
+            }
+            for lit_left in [true, false] {
+                let cond = if lit_left { format!("{} {} y", lit_src(a), op.src()) } else { format!("y {} {}", op.src(), lit_src(a)) };
+                let src = format!("{{% if {cond} %}}T{{% else %}}F{{% endif %}}");
+                let h = hash_str(&format!("reused|{src}|{i}"));
+                if !ctx.mine(h) {
+                    continue;
+                }
+                let Ok(shared) = p.parse(&src) else { continue };
+                let mut usable: Vec<(RVal, &'static str)> = Vec::new();
+                for b in pool.iter() {
+                    let mut o = Object::new();
+                    o.insert("y".into(), b.to_liquid());
+                    let fresh = match p.parse(&src) {
+                        Ok(t) => render(&t, &o),
+                        Err(_) => continue,
+                    };
+                    let again = render(&shared, &o);
+                    ctx.count("reused-template:renders");
+                    if fresh.summary() != again.summary() {
+                        let (src2, b2) = (src.clone(), b.clone());
+                        ctx.violation(
+                            "condition-result-depends-on-earlier-evaluation",
+                            &format!("{src:?} with y={}: a fresh template gives {:?}, the same template after earlier renders gives {:?}", b.dump(), fresh.summary(), again.summary()),
+                            || json!({"kind": "render", "config": "stdlib", "template": src2, "partials": [], "data": RVal::Object(vec![("y".into(), b2)]).to_json()}),
+                        );
+                    }
+                    if let Some(br) = branch(&fresh) {
+                        usable.push((b.clone(), br));
+                    }
+                }
+                // the same condition inside a loop over every value it can be evaluated for
+                let loop_src = format!("{{% for y in ys %}}{{% if {cond} %}}T{{% else %}}F{{% endif %}}{{% endfor %}}");
+                if let Ok(t) = p.parse(&loop_src) {
+                    let ys = RVal::Array(usable.iter().map(|(b, _)| b.clone()).collect());
+                    let mut o = Object::new();
+                    o.insert("ys".into(), ys.to_liquid());
+                    let want: String = usable.iter().map(|(_, br)| *br).collect();
+                    let got = render(&t, &o);
+                    ctx.count("reused-in-loop:renders");
+                    ctx.add("reused-in-loop:evaluations", usable.len() as u64);
+                    if got.ok() != Some(want.as_str()) {
+                        let (ls, ys2) = (loop_src.clone(), ys.clone());
+                        ctx.violation(
+                            "condition-result-depends-on-earlier-evaluation",
+                            &format!("{loop_src:?}: per-value answers are {want:?} but the loop rendered {:?}", got.summary()),
+                            || json!({"kind": "render", "config": "stdlib", "template": ls, "partials": [], "data": RVal::Object(vec![("ys".into(), ys2)]).to_json()}),
+                        );
+                    }
+                }
+                ctx.record(h, true);
+            }
+        }
+    }
+}
+
 pub fn run(ctx: &mut Ctx) {
     ctx.start_watchdog(120);
     operator_cells(ctx);
+    reused_conditions(ctx);
     chains(ctx);
     random_nesting(ctx);
 }
@@ -394,6 +466,7 @@ pub fn replay(j: &serde_json::Value) -> bool {
     // reproduces iff the recorded key still applies: re-run the cell through the checker
     let mut ctx = Ctx::new("C06", crate::ctx::Tier::Quick, 1, 0, 1, None);
     operator_cells(&mut ctx);
+    reused_conditions(&mut ctx);
     let key = j["key"].as_str().unwrap_or("");
     ctx.violation_counts.contains_key(key)
 }
